@@ -787,7 +787,10 @@ func (o *cpObs) transferRound(s *Sim, f *cpFile, rg *rand.Rand, benign bool) {
 		s.stat("c16.rejected_at."+rej.stage, 1)
 		s.log.Add("    rejected at %s: %s", rej.stage, cpShort(rej.err.Error()))
 		if neutralOnly {
-			s.violate("C16", "clean-transfer-rejected", rej.stage, fmt.Sprintf("catchpoint %s: an untampered transfer (%s) was rejected at %s: %v", f.Label, desc, rej.stage, rej.err))
+			if o.cleanRejectKnown(s, f, rej) {
+				return
+			}
+			s.violate("C16", "clean-transfer-rejected", cpCleanRejectKey(f, rej), fmt.Sprintf("catchpoint %s: an untampered transfer (%s) was rejected at %s: %v%s", f.Label, desc, rej.stage, rej.err, cpCollisionNote(f)))
 			return
 		}
 		if c.led == nil {
@@ -837,6 +840,34 @@ func (o *cpObs) stagingDiag(s *Sim, f *cpFile, secs []cpSection, rg *rand.Rand) 
 	}
 	n, first := cpDumpDiff(d0, d1)
 	return fmt.Sprintf(" [diagnosis: staged tables of the transferred sections differ from those of the producer's file in %d row(s): %s; VerifyCatchpoint accepts them: %v]", n, first, ok1)
+}
+
+// A producer state with two kv pairs whose key||value concatenations coincide (e.g. box "a" with five zero
+// bytes and box "a\x00" with four, same application) has ONE trie leaf for both (KvHashBuilderV6, F6):
+// BuildMerkleTrie rejects the producer's own file ("same account more than once"). Classified apart.
+func cpCleanRejectKey(f *cpFile, rej *cpRejected) string {
+	if rej.stage == "build-trie" && cpKvLeafCollision(f.Sections) != "" {
+		return "kv-leaf-collision"
+	}
+	return rej.stage
+}
+
+func cpCollisionNote(f *cpFile) string {
+	if c := cpKvLeafCollision(f.Sections); c != "" {
+		return " [the producer's own state holds colliding kv pairs: " + c + "]"
+	}
+	return ""
+}
+
+func (o *cpObs) cleanRejectKnown(s *Sim, f *cpFile, rej *cpRejected) bool {
+	key := cpCleanRejectKey(f, rej)
+	if key != "kv-leaf-collision" || !cpIsKnown("C16", key) {
+		return false
+	}
+	s.known = append(s.known, kernel.Violation{Property: "C16", Oracle: "clean-transfer-rejected", Key: key, Step: s.step,
+		Detail: fmt.Sprintf("catchpoint %s: the producer's untampered file is rejected at %s: %v%s", f.Label, rej.stage, rej.err, cpCollisionNote(f))})
+	s.stat("known.kv-leaf-collision", 1)
+	return true
 }
 
 func cpShort(m string) string {
